@@ -166,11 +166,43 @@ def make_sim(root, spec):
                     ds.attrs['time'] = float(time_of(it))
                 f.create_group('Parameters and Global Attributes')
         for cit in rs.get('checkpoints', []):
-            names = ([f'checkpoint.chkpt.it_{cit}.file_{k}.h5' for k in range(3)]
-                     if rs.get('chk_proc') else [f'checkpoint.chkpt.it_{cit}.h5'])
-            for nm in names:
+            nb = len(spec['levels'][min(spec['levels'])]['boxes'])
+            proc = bool(rs.get('chk_proc')) and (nb > 1 or not spec.get('chk_data'))
+            nfiles = (nb if spec.get('chk_data') else 3) if proc else 1
+            names = ([f'checkpoint.chkpt.it_{cit}.file_{k}.h5' for k in range(nfiles)]
+                     if proc else [f'checkpoint.chkpt.it_{cit}.h5'])
+            for fi, nm in enumerate(names):
                 with h5py.File(os.path.join(d, nm), 'w') as f:
                     f.create_group('Parameters and Global Attributes')
+                    if not spec.get('chk_data'):
+                        continue
+                    for var in spec['vars']:
+                        thorn = VARS[var][0]
+                        for rl, lev in spec['levels'].items():
+                            nx, ny, nz = lev['shape']
+                            gx, gy, gz = lev['ghost']
+                            boxes = lev['boxes']
+                            perm = lev.get('perm') or list(range(len(boxes)))
+                            for tl in (0, 1):
+                                full = np.full((nx + 2 * gx, ny + 2 * gy, nz + 2 * gz), SENTINEL)
+                                full[gx:gx + nx, gy:gy + ny, gz:gz + nz] = truth(
+                                    var, cit, rl, rs.get('rtag', 0), lev['shape']) + (0 if tl == 0 else 7.0e6)
+                                for cnum, bi in enumerate(perm):
+                                    if proc and cnum != fi:
+                                        continue
+                                    (x0, x1), (y0, y1), (z0, z1) = boxes[bi]
+                                    blk = full[x0:x1 + 2 * gx, y0:y1 + 2 * gy, z0:z1 + 2 * gz]
+                                    arr = np.ascontiguousarray(np.transpose(blk, (2, 1, 0)))
+                                    key = f'{thorn}::{var} it={cit} tl={tl}'
+                                    if spec.get('m0'):
+                                        key += ' m=0'
+                                    key += f' rl={rl}'
+                                    if len(boxes) > 1:
+                                        key += f' c={cnum}'
+                                    ds = f.create_dataset(key, data=arr)
+                                    ds.attrs['cctk_nghostzones'] = np.array((gx, gy, gz), dtype=np.int32)
+                                    ds.attrs['iorigin'] = np.array((x0, y0, z0), dtype=np.int32)
+                                    ds.attrs['time'] = float(time_of(cit))
     simpath = root if root.endswith('/') else root + '/'
     return {'simulation': 'ET', 'simname': simname, 'simpath': simpath}
 
